@@ -192,7 +192,7 @@ def xml_report(base_prefix: str, path: str, xml_request: Optional[ET.Element],
             assert isinstance(temp_url_path, str)
             href_path = pathutils.sanitize_path(unquote(temp_url_path))
             if (href_path + "/").startswith(base_prefix + "/"):
-                hreferences.add(href_path[len(base_prefix):])
+                hreferences.add(href_path[len(base_prefix):] or "/")
             else:
                 logger.warning("Skipping invalid path %r in REPORT request on "
                                "%r", href_path, path)
